@@ -161,14 +161,17 @@ class Dup(Exception):
 
 def _to_model(p, info):
     if isinstance(p, str):
-        return Str(p.encode("utf-8", "surrogatepass"), True)
+        b = p.encode("utf-8", "surrogatepass")
+        if len(b) != len(p) and not V.is_valid_utf8(b):
+            info["lone"] = True
+        return Str(b, True)
     if isinstance(p, list):
         return [_to_model(x, info) for x in p]
     if isinstance(p, _Pairs):
         items = []
         pos = {}
         for k, x in p.pairs:
-            kb = k.encode("utf-8", "surrogatepass")
+            kb = _to_model(k, info).b
             x = _to_model(x, info)
             if kb in pos:           # duplicate name: the last value wins, at the first position
                 info["dups"] = True
@@ -507,6 +510,26 @@ def cli_fails(ctx, v, text=None, optnames=None):
 # ------------------------------------------------------------------------------------------
 # shrinking and keys
 
+def bisect_fail(items, bad):
+    """narrow a failing list of items down to a sublist that still fails (a single item when one
+    fails alone); `bad(sublist)` re-executes. O(log n) re-executions."""
+    while len(items) > 1:
+        h = len(items) // 2
+        if bad(items[:h]):
+            items = items[:h]
+        elif bad(items[h:]):
+            items = items[h:]
+        else:
+            # fails only as a stream: shrink from both ends
+            lo, hi = 0, len(items)
+            while hi - lo > 2 and bad(items[lo + 1:hi]):
+                lo += 1
+            while hi - lo > 2 and bad(items[lo:hi - 1]):
+                hi -= 1
+            return items[lo:hi]
+    return items
+
+
 def parts(v):
     if isinstance(v, list):
         for x in v:
@@ -600,20 +623,24 @@ def check_values(ctx, vals, fam, cli_opts):
             report_value(ctx, "filter", "printed-form-differs", okv[i], lambda x: filter_fails(ctx, x), fam)
     if okv and cli_opts:
         bad = cli_check_batch(ctx, okv, okt, cli_opts)
-        done = 0
+        if bad and ctx.n["cli_reports"] >= 3:
+            ctx.report("cli:" + sorted(c for _, c in bad)[0], "more", None)
+            return
+        if bad:
+            ctx.n["cli_reports"] += 1
         if any(i is None for i, _ in bad):
-            # not localised: go value by value (bounded)
-            for v, t in zip(okv, okt):
-                cls = cli_fails(ctx, v, t)
-                if cls:
-                    report_value(ctx, "cli", cls, v, lambda x: cli_fails(ctx, x), fam)
-                    done += 1
-                    if done >= 4:
-                        break
-            if not done:
-                ctx.report("cli:batch-only:" + ",".join(sorted({c for i, c in bad if i is None})), fam,
+            # not localised: bisect the batch (each step re-runs the batch check on a sublist)
+            def bad_sub(idx):
+                return bool(cli_check_batch(ctx, [okv[i] for i in idx], [okt[i] for i in idx], cli_opts))
+            sub = bisect_fail(list(range(len(okv))), bad_sub)
+            cls = cli_fails(ctx, okv[sub[0]], okt[sub[0]]) if len(sub) == 1 else None
+            if cls:
+                report_value(ctx, "cli", cls, okv[sub[0]], lambda x: cli_fails(ctx, x), fam)
+            else:
+                ctx.report("cli:in-stream-only:" + ",".join(sorted({c for i, c in bad if i is None})),
+                           "|".join(detail_of(okv[i]) for i in sub[:3]),
                            {"kind": "batch", "classes": [c for _, c in bad][:5],
-                            "wires": [enc(v) for v in okv[:50]]})
+                            "wires": [enc(okv[i]) for i in sub[:50]]})
         else:
             seen = set()
             for i, cls in bad:
@@ -635,20 +662,6 @@ def check_values(ctx, vals, fam, cli_opts):
 def py_expected(text):
     info = {}
     return py_read(text, info), info
-
-
-def has_lone_surrogate(v):
-    if isinstance(v, Str):
-        try:
-            v.b.decode("utf-8")
-            return False
-        except UnicodeDecodeError:
-            return True
-    if isinstance(v, list):
-        return any(has_lone_surrogate(x) for x in v)
-    if isinstance(v, Obj):
-        return any(has_lone_surrogate(k) or has_lone_surrogate(x) for k, x in v.items)
-    return False
 
 
 def diff_text(exp, got, dups):
@@ -731,7 +744,7 @@ def check_texts(ctx, items, fam):
             exp, info = py_expected(text)
         except ValueError as e:
             raise RuntimeError("generator produced a text Python's json rejects: %r (%s)" % (text, e))
-        if has_lone_surrogate(exp):
+        if info.get("lone"):
             ctx.not_judged["text-with-lone-surrogate"] += 1
             continue
         judged.append((text, lits, exp, bool(info.get("dups"))))
@@ -763,21 +776,35 @@ def check_texts(ctx, items, fam):
                 if d:
                     note(i, d, "filter")
     ctx.n["texts_read_by_fromjson"] += n
-    # both format readers on the concatenated stream (separated by one of the RFC whitespace characters)
+    # both format readers on the concatenated stream (separated by RFC whitespace characters)
     seps = [b"\n", b" ", b"\t", b"\r", b"\r\n", b" \n "]
-    data = b"".join(t.encode("utf-8") + ctx.rng.choice(seps) for t, _, _, _ in judged)
+    sep_of = [ctx.rng.choice(seps) for _ in judged]
+
+    def stream(idx):
+        return b"".join(judged[i][0].encode("utf-8") + sep_of[i] for i in idx)
+
+    def localise(route, bad):
+        """a stream was misread: find the text responsible"""
+        sub = bisect_fail(list(range(n)), bad)
+        if len(sub) == 1:
+            i = sub[0]
+            cls, r = text_one(ctx, judged[i][0], judged[i][2], judged[i][3], (route,))
+            note(i, cls or "misread-with-trailing-whitespace", route)
+        else:
+            failing.setdefault(sub[0], ("stream-of-texts-misread", route))
+            stream_note[sub[0]] = [judged[i][0] for i in sub]
+
+    stream_note = {}
+    data = stream(range(n))
     for via_read in (False, True):
         route = "read" if via_read else "parse"
+
+        def bad_read(idx, via_read=via_read):
+            vals, err = ctx.read(stream(idx), via_read)
+            return vals is None or bool(err) or len(vals) != len(idx)
         vals, err = ctx.read(data, via_read)
         if vals is None or err or len(vals) != n:
-            for i, (t, _, exp, dups) in enumerate(judged):
-                cls, r = text_one(ctx, t, exp, dups, (route,))
-                if cls:
-                    note(i, cls, r)
-                    if len(failing) > 8:
-                        break
-            if not any(r == route for _, r in failing.values()):
-                note(0, "stream-of-texts-misread", route)
+            localise(route, bad_read)
         else:
             for i in range(n):
                 d = diff_text(judged[i][2], vals[i], judged[i][3])
@@ -788,27 +815,23 @@ def check_texts(ctx, items, fam):
     for via_file in (False, True):
         route = "file" if via_file else "stdin"
         for args in (["-c"], []):
-            rc, out, err = ctx.run_cli(args, data, via_file)
-            if rc is None:
-                ctx.inconc.append("cli-timeout")
-                continue
-            ps = None
-            if rc == 0:
+            def cli_read(idx, via_file=via_file, args=args):
+                rc, out, err = ctx.run_cli(args, stream(idx), via_file)
+                if rc is None:
+                    return "timeout"
+                if rc != 0:
+                    return None
                 try:
                     ps = py_read_stream(out.decode("utf-8"))
                 except (ValueError, UnicodeDecodeError):
-                    ps = None
-            if ps is None or len(ps) != n:
-                found = False
-                for i, (t, _, exp, dups) in enumerate(judged):
-                    cls, r = text_one(ctx, t, exp, dups, (route,))
-                    if cls:
-                        note(i, cls, r)
-                        found = True
-                        if len(failing) > 8:
-                            break
-                if not found:
-                    note(0, "stream-of-texts-misread", route)
+                    return None
+                return ps if len(ps) == len(idx) else None
+            ps = cli_read(range(n))
+            if ps == "timeout":
+                ctx.inconc.append("cli-timeout")
+                continue
+            if ps is None:
+                localise(route, lambda idx: not isinstance(cli_read(idx), list))
             else:
                 for i in range(n):
                     d = diff_text(judged[i][2], ps[i], judged[i][3])
@@ -833,7 +856,7 @@ def check_texts(ctx, items, fam):
         detail = small if len(small) <= 60 else "text:len>60"
         ctx.report("text:%s:%s" % (route, cls), detail,
                    {"kind": "text", "route": route, "class": cls, "family": fam, "text": small,
-                    "text_hex": small.encode("utf-8").hex(), "original": text,
+                    "text_hex": small.encode("utf-8").hex(), "original": text, "stream": stream_note.get(i),
                     "python_reads": show(py_expected(small)[0], 300)})
         reported += 1
         if reported >= 6:
